@@ -170,3 +170,87 @@ func VerifHarness_HostCalls() {
 	}
 	errors.VerifReached("history-done")
 }
+
+// ---- literals are fresh in every call ----
+
+// Every function builds a value from a literal, mutates it in place and reports what it sees: a call must start from
+// the literal as written, whatever earlier calls did to their copy (the compiled program is shared by all calls).
+const verifFreshProgram = "fn anyobj(a: int) -> int {\n  let t = new { ? };\n  if a > 0 { t.set(\"pos\", a); } else { t.set(\"neg\", a); }\n  t.keys().len()\n}\n" +
+	"fn lst(a: int) -> int {\n  let l = [1, 2];\n  l.push(a);\n  l.len()\n}\n" +
+	"fn obj(a: int) -> int {\n  let o = new { n: 10, inner: new { m: [0] } };\n  o.n += a;\n  o.inner.m.push(a);\n  o.n * 100 + o.inner.m.len()\n}\n" +
+	"fn nested(a: int) -> int {\n  let m = [[1], [2, 3]];\n  m[0].push(a);\n  m.push([a]);\n  m[0].len() * 10 + m.len()\n}\n" +
+	"fn opt(a: int) -> int {\n  let o = ?[7];\n  o.unwrap().push(a);\n  o.unwrap().len()\n}\n" +
+	"fn txt(a: int) -> int {\n  let s = \"ab\";\n  s += \"c\";\n  let r = 0..3;\n  let n = 0;\n  for i in r { if i == a { break; } n += 1; }\n  s.len() * 10 + n\n}\n" +
+	"fn anyobj_in_list(a: int) -> int {\n  let l = [new { ? }];\n  l[0].set(\"k\", a);\n  l.push(new { ? });\n  l[1].keys().len() * 10 + l[0].keys().len()\n}\n" +
+	"fn main() { }\n"
+
+var verifFreshTargets = []string{"anyobj", "lst", "obj", "nested", "opt", "txt", "anyobj_in_list"}
+
+func VerifHarness_HostFreshValues() {
+	H := errors.VerifParam("H", 3)
+	an := verifAnalyze(verifFreshProgram, nil, nil, true)
+	if an.hasError {
+		errors.VerifTag("diag", an.describe())
+		errors.VerifAssert("accepted", false)
+		return
+	}
+	comp := compiler.NewCompiler(an.modules, verifFile)
+	compiled, err := comp.Compile()
+	if err != nil {
+		errors.VerifInconclusive("compile error")
+	}
+	out := ""
+	var triggers []string
+	exec := verifVmExec{out: &out, triggers: &triggers}
+	ctx := newVerifCtx()
+	var cctx context.Context = ctx
+	var cancel context.CancelFunc = ctx.cancel
+	vm := runtime.NewVM(compiled, vvalue.Executor(exec), &cctx, &cancel, verifVmScope(nil), verifLimits)
+	for step := 0; step < H; step++ {
+		ti := errors.VerifNdIntRange(fmt.Sprintf("target%d", step), 0, len(verifFreshTargets)-1)
+		target := verifFreshTargets[ti]
+		a := errors.VerifNdInt64(fmt.Sprintf("a%d", step))
+		errors.VerifAssume(a >= -1000 && a <= 1000)
+		errors.VerifTag(fmt.Sprintf("call%d", step), target)
+		inv := runtime.FunctionInvocation{Function: target, Args: []vvalue.Value{*vvalue.NewValueInt(a)},
+			FunctionSignature: runtime.FunctionInvocationSignature{Params: []runtime.FunctionInvocationSignatureParam{verifIntParam("a")}, ReturnType: ast.NewIntType(errors.Span{})}}
+		var res runtime.FunctionInvocationResult
+		panicked, msg := errors.VerifPanics(func() { res = vm.SpawnSync(inv, nil, nil) })
+		if panicked {
+			errors.VerifTag("panic", errors.VerifNorm(msg))
+		}
+		errors.VerifAssert("host-call-never-crashes", !panicked)
+		if panicked {
+			return
+		}
+		errors.VerifReached("called")
+		errors.VerifAssert("completed-call-has-no-exception", res.Exception == nil)
+		if res.Exception != nil || res.ReturnValue == nil {
+			return
+		}
+		var want int64
+		switch target {
+		case "anyobj":
+			want = 1
+		case "lst":
+			want = 3
+		case "obj":
+			want = (10+a)*100 + 2
+		case "nested":
+			want = 23
+		case "opt":
+			want = 2
+		case "txt":
+			n := int64(3)
+			if a >= 0 && a < 3 {
+				n = a
+			}
+			want = 30 + n
+		case "anyobj_in_list":
+			want = 1
+		}
+		rv := res.ReturnValue
+		errors.VerifAssert("call-starts-from-the-literal-as-written", rv.Kind() == vvalue.IntValueKind && rv.(vvalue.ValueInt).Inner == want)
+	}
+	errors.VerifReached("history-done")
+}
